@@ -979,3 +979,83 @@ RULES = [
     Rule('C01.P3', 'inexact iff digits lost; exact=True refuses; flags and increment wiring in RealFloat._round_at', p3_inexact, 12, 'P'),
     Rule('C01.X2', 'Context._round_prepare operand-kind table', x2_round_prepare, 8, 'X'),
 ]
+
+
+# ----------------------------------------------------------------------
+# self-test mutants (analysed in memory, never executed)
+
+from ..selftest import Mutant  # noqa: E402
+
+_MPBF = CTXDIR + 'mpb_float.py'
+_MPBX = CTXDIR + 'mpb_fixed.py'
+_MPS = CTXDIR + 'mps_float.py'
+_MPF = CTXDIR + 'mp_float.py'
+_MPX = CTXDIR + 'mp_fixed.py'
+_EF = CTXDIR + 'efloat.py'
+_EXP = CTXDIR + 'exponential.py'
+
+MUTANTS = [
+    Mutant('rtp-negative-away', ROUND,
+           'case (True, RoundingMode.RTP):\n                return False, RoundingDirection.RTZ',
+           'case (True, RoundingMode.RTP):\n                return False, RoundingDirection.RAZ',
+           'C01.T1', 'round-toward-positive of a negative value must go toward zero'),
+    Mutant('rna-ties-even', ROUND,
+           'case (_, RoundingMode.RNA):\n                return True, RoundingDirection.RAZ',
+           'case (_, RoundingMode.RNA):\n                return True, RoundingDirection.RTE', 'C01.T1'),
+    Mutant('rte-parity-flipped', REALS,
+           'case RoundingDirection.RTE:\n                return (self._c & 1) != 0',
+           'case RoundingDirection.RTE:\n                return (self._c & 1) == 0', 'C01.T2'),
+    Mutant('below-half-sticky-dropped', REALS,
+           'half_bit = False\n                lower_bits = True', 'half_bit = False\n                lower_bits = False', 'C01.T3'),
+    Mutant('above-half-uses-tie-rule', REALS,
+           '# above halfway\n                    increment = True',
+           '# above halfway\n                    increment = self._round_increment_direction(direction)', 'C01.T3'),
+    Mutant('directed-never-increments', REALS,
+           '# non-nearest rounding mode\n            increment = self._round_increment_direction(direction)',
+           '# non-nearest rounding mode\n            increment = False', 'C01.T3'),
+    Mutant('rtz-overflows-to-inf', _MPBF,
+           'case RoundingDirection.RTZ:\n                return False', 'case RoundingDirection.RTZ:\n                return True', 'C01.T4'),
+    Mutant('fixed-rte-saturates', _MPBX,
+           'case RoundingDirection.RTE:\n                return True', 'case RoundingDirection.RTE:\n                return False', 'C01.T4',
+           'sibling tables of the float and fixed families must agree'),
+    Mutant('underflow-raz-to-zero', _EXP,
+           'case RoundingDirection.RAZ:\n                return False', 'case RoundingDirection.RAZ:\n                return True', 'C01.T4'),
+    Mutant('inf-loses-sign', _MPS, 'return Float(s=x.s, isinf=True, ctx=self)', 'return Float(isinf=True, ctx=self)', 'C01.T5'),
+    Mutant('nan-substitute-ignored', _MPF,
+           "raise ValueError('Cannot round NaN under this context')\n                else:\n                    return Float(x=self.nan_value, ctx=self)",
+           "raise ValueError('Cannot round NaN under this context')\n                else:\n                    return Float(isnan=True, ctx=self)",
+           'C01.T5'),
+    Mutant('wrap-accepted-by-float-family', _MPBF,
+           "        if overflow == OverflowMode.WRAP:\n            raise ValueError('OverflowMode.WRAP is not supported for MPBFloatContext')\n",
+           '', 'C01.X1', 'WRAP then fails only when a value overflows'),
+    Mutant('saturate-arm-dropped', _MPBX,
+           '                case OverflowMode.SATURATE:\n                    result = self.maxval(s=xr.s)\n', '', 'C01.X1'),
+    Mutant('inexact-not-flagged-on-overflow', _MPBF, '            result._real._flags._set_inexact(True)\n', '', 'C01.P1'),
+    Mutant('saturate-returns-early', _MPBX, 'result = self.maxval(s=xr.s)', 'return self.maxval(s=xr.s)', 'C01.P1'),
+    Mutant('exp-underflow-flag-other-object', _EXP,
+           "            result._real._flags._set_overflow(True)\n            result._real._flags._set_inexact(True)\n            return result\n\n        elif",
+           "            result._real._flags._set_inexact(True)\n            return result\n\n        elif", 'C01.P1'),
+    Mutant('fixup-drops-flags', _EF,
+           'return self.maxval(s=x.s)._with_flags(x)\n            return Float(s=x.s, x=self.nan_value',
+           'return self.maxval(s=x.s)\n            return Float(s=x.s, x=self.nan_value', 'C01.P1b'),
+    Mutant('zero-shortcut-removed', _MPF,
+           '        if x.is_zero():\n            return Float(s=x.s, ctx=self)\n', '', 'C01.P2'),
+    Mutant('inf-not-filtered', _MPS, '            elif x.isinf:\n', '            elif x.isinf and self.enable_inf:\n', 'C01.P2',
+           'an infinity with enable_inf=False falls through to RealFloat.round'),
+    Mutant('rng-not-forwarded', _MPS, 'self.num_randbits, rng=self.rng, exact=exact', 'self.num_randbits, exact=exact', 'C01.F1'),
+    Mutant('randbits-not-forwarded', _MPBF, 'self.rm, self.num_randbits, rng=self.rng', 'self.rm, 0, rng=self.rng', 'C01.F1'),
+    Mutant('exact-not-forwarded', _MPX, 'rng=self.rng, exact=exact)', 'rng=self.rng)', 'C01.F1'),
+    Mutant('mode-not-forwarded-exp', _EXP, 'MPFloatContext(1, rm=self.rm)', 'MPFloatContext(1)', 'C01.F1'),
+    Mutant('result-untagged', _MPX, '        else:\n            return Float(x=xr, ctx=self)\n\n    def round(self', '        else:\n            return Float(x=xr)\n\n    def round(self', 'C01.F1b'),
+    Mutant('efloat-not-retagged', _EF, '        y._ctx = self\n', '', 'C01.F1b'),
+    Mutant('inexact-never-set', REALS, '                inexact = True\n                if exact:', '                if exact:', 'C01.P3'),
+    Mutant('inexact-set-unconditionally', REALS,
+           '            if not lost.is_zero():\n                # check that we\'re allowed to round\n                inexact = True',
+           '            inexact = True\n            if not lost.is_zero():\n                # check that we\'re allowed to round', 'C01.P3'),
+    Mutant('increment-ignores-mode', REALS, 'increment = kept._round_increment(lost, n, rm)\n\n                # step 4',
+           'increment = kept._round_increment(lost, n, RoundingMode.RNE)\n\n                # step 4', 'C01.P3'),
+    Mutant('flags-drop-inexact', REALS, 'tiny_post=tiny_post, inexact=inexact, carry=carry)', 'tiny_post=tiny_post, carry=carry)', 'C01.P3'),
+    Mutant('int-through-double', CONTEXT, 'case int():\n                return RealFloat.from_int(x)',
+           'case int():\n                return Float.from_float(float(x))', 'C01.X2'),
+    Mutant('fallback-ignores-context', CONTEXT, 'return mpfr_value(x, prec=p, n=n)', 'return mpfr_value(x, prec=53, n=None)', 'C01.X2'),
+]
